@@ -5,6 +5,8 @@
 # Date   : March 18, 2019
 """Provide the level 4 SystemVerilog translator implementation."""
 
+from collections import deque
+
 from pymtl3.passes.backends.generic.behavioral.BehavioralTranslatorL4 import (
     BehavioralTranslatorL4,
 )
@@ -58,7 +60,11 @@ class BehavioralRTLIRToVVisitorL4( BehavioralRTLIRToVVisitorL3 ):
   def visit_Index( s, node ):
     if isinstance( node.value.Type, rt.Array ) and \
         isinstance( node.value.Type.get_sub_type(), rt.InterfaceView ):
+      # The index is an expression of its own: the indices that are pending
+      # for the enclosing signal must not end up inside it
+      pending, s._unpacked_q = s._unpacked_q, deque()
       idx = s.visit( node.idx )
+      s._unpacked_q = pending
       s._unpacked_q.appendleft(idx)
       value = s.visit( node.value )
       return value
